@@ -193,6 +193,8 @@ func (e *Exec) evalIdent(env *Env, x *ast.Ident) Val {
 		return vRef("0")
 	case "nilbytes":
 		return vBytes(`""`, "true")
+	case "emptystrs":
+		return vSeqTerm("(as seq.empty (Seq String))")
 	case "SOH":
 		return vStr(sStr("\x01"))
 	}
@@ -492,6 +494,27 @@ func (e *Exec) evalCall(env *Env, x *ast.CallExpr) Val {
 		return vInt(sx("str.to_code", sx("str.at", asStr(arg(0)), arg(1).t())))
 	case "typeof":
 		return vInt(sx("typeof", arg(0).t()))
+	case "ffmt":
+		e.S.DeclareFun("formatFloat", []string{"Int", "Int", "Int", "Int"}, "String")
+		return vStr(sx("formatFloat", arg(0).t(), "102", "(- 1)", "64"))
+	case "tfmt":
+		e.S.DeclareFun("timeFormat", []string{"Int", "String"}, "String")
+		return vStr(sx("timeFormat", arg(0).t(), asStr(arg(1))))
+	case "join":
+		e.S.DeclareFun("join", []string{"(Seq String)", "String"}, "String")
+		return vStr(sx("join", e.seqTermOfT(env, arg(0), "String"), asStr(arg(1))))
+	case "seqof":
+		v := arg(0)
+		srt := "Int"
+		if v.T != nil {
+			if sl, ok := v.T.Underlying().(*types.Slice); ok {
+				srt = elemSort(sl.Elem())
+			}
+		}
+		return vSeqTerm(e.seqTermOfT(env, v, srt))
+	case "snoc":
+		// sequence of byte strings extended by one element (spec-level)
+		return vSeqTerm(sx("seq.++", e.seqTermOfT(env, arg(0), "String"), sx("seq.unit", asStr(arg(1)))))
 	case "istype":
 		v := arg(0)
 		t := env.resolveType(exprString(x.Args[1]))
@@ -521,7 +544,13 @@ func (e *Exec) evalCall(env *Env, x *ast.CallExpr) Val {
 		return vBool(sx("str.in_re", asStr(arg(0)), `(re.* (re.range "\u{0}" "\u{ff}"))`))
 	case "seqlen":
 		v := arg(0)
+		if v.K == KUnit {
+			return vInt(sx("seq.len", v.A[0]))
+		}
 		return vInt(sx("seq.len", e.seqTermOf(env, v)))
+	case "nths":
+		v := arg(0)
+		return vStr(sx("seq.nth", e.seqTermOfT(env, v, "String"), arg(1).t()))
 	case "nth":
 		v := arg(0)
 		var et types.Type = types.Typ[types.Int]
@@ -553,6 +582,16 @@ func boolStr(b bool) string {
 		return "true"
 	}
 	return "false"
+}
+
+// vSeqTerm wraps a raw sequence term as a spec-level value.
+func vSeqTerm(t string) Val { return Val{K: KUnit, A: []string{t}} }
+
+func (e *Exec) seqTermOfT(env *Env, v Val, elemSort string) string {
+	if v.K == KUnit && len(v.A) == 1 {
+		return v.A[0]
+	}
+	return e.sel(env.st, "SEQ_"+elemSort, "(Seq "+elemSort+")", v.t())
 }
 
 func (e *Exec) seqTermOf(env *Env, v Val) string {
@@ -590,6 +629,8 @@ func (e *Exec) specType(pkgPath, src string) (Kind, types.Type) {
 		return KBytes, types.NewSlice(types.Typ[types.Uint8])
 	case "ref":
 		return KRef, nil
+	case "seqstr":
+		return KUnit, nil
 	}
 	var pk *types.Package
 	if sp := e.P.SPkgs[pkgPath]; sp != nil {
@@ -626,6 +667,10 @@ func (e *Exec) applySpec(env *Env, sf *SpecFn, args []Val) Val {
 	// uninterpreted
 	var sorts []string
 	var terms []string
+	if sf.Heap {
+		sorts = append(sorts, "Int")
+		terms = append(terms, env.st.hv)
+	}
 	for i, p := range sf.Params {
 		k, t := e.specType(sf.PkgPath, p.Type)
 		a := castTo(args[i], k, t)
